@@ -3,7 +3,7 @@
    instance of the theorems) and over binary64 (the instance the correspondence executes). *)
 From Coq Require Import Reals ZArith Lra Lia List Bool PrimFloat.
 From Flocq Require Import Zaux Raux.
-From PR Require Import Base.Num Base.RNum Base.F64 Model.Grid Model.EWA Gen.GenC08 Proofs.Grid_real Proofs.C08_ll2cr.
+From PR Require Import Base.Num Base.RNum Base.F64 Model.Grid Model.EWA Gen.GenC08 Model.C08_run Model.C08_rungen Proofs.Grid_real Proofs.C08_ll2cr.
 Import ListNotations.
 
 (* portfolio: algebraically equivalent rewrites of the source re-prove themselves *)
@@ -21,12 +21,30 @@ Qed.
    it bit for bit with the implementation, so float-level rewrites of the source (x * 0.5 for x / 2., b + a for a + b)
    raise nothing as long as the bits agree *)
 
+(* the element loop body of _ll2cr.pyx:ll2cr_static, regenerated from the .pyx text: it IS the model's [ll2cr_pixel],
+   for EVERY arithmetic instance (reals, binary64, rationals) *)
+Lemma gen_body_is_pixel {T} (OP : ops T) x y fill cw ch w h ox oy :
+  gen_ll2cr_body OP x y fill cw ch w h ox oy = ll2cr_pixel OP (mk_crp cw ch ox oy w h) fill (x, y).
+Proof.
+  unfold gen_ll2cr_body, ll2cr_pixel, in_grid_test, big30. cbn [cp_cw cp_ch cp_ox cp_oy cp_w cp_h Z.opp].
+  destruct (leb OP _ x); [reflexivity|].
+  repeat match goal with |- context [leb OP ?a ?b] => destruct (leb OP a b) end; reflexivity.
+Qed.
+
+(* the whole loop (Model/C08_rungen.v:ll2cr_static_src): map of the generated body + count *)
+Lemma ll2cr_static_src_eq {T} (OP : ops T) p fill pts : ll2cr_static_src OP p fill pts = ll2cr_static OP p fill pts.
+Proof.
+  unfold ll2cr_static_src, ll2cr_static. destruct p as [cw ch ox oy w h]. cbn [cp_cw cp_ch cp_ox cp_oy cp_w cp_h].
+  rewrite (map_ext _ (ll2cr_pixel OP (mk_crp cw ch ox oy w h) fill)); [reflexivity|].
+  intros [x y]. apply gen_body_is_pixel.
+Qed.
+
 (* ll2cr with the generated parameters *)
 Definition ll2cr_src {T} (OP : ops T) (a : area T) (fill : T) (pts : list (T * T)) : Z * list (T * T) :=
-  ll2cr_static OP (params_of_tuple (gen_ll2cr_params OP a)) fill pts.
+  ll2cr_static_src OP (params_of_tuple (gen_ll2cr_params OP a)) fill pts.
 
 Lemma ll2cr_src_R a fill pts : ll2cr_src RO a fill pts = ll2cr RO a fill pts.
-Proof. unfold ll2cr_src, ll2cr. rewrite gen_params_R. reflexivity. Qed.
+Proof. unfold ll2cr_src, ll2cr. rewrite ll2cr_static_src_eq, gen_params_R. reflexivity. Qed.
 
 Open Scope R_scope.
 Theorem ll2cr_src_is_area_map (proj : R * R -> R * R) a fill lonlats :
